@@ -1,21 +1,28 @@
 """C10 - inverse, determinant and their gtc/gtx variants satisfy the defining identities
 (detail/func_matrix.inl, gtc/matrix_inverse.inl, operator/ of type_mat{2x2,3x3,4x4}.inl, gtx/matrix_operation.inl, gtx/matrix_query.inl, gtx/matrix_factorisation.inl)."""
 from props.common import *
-from props.c02 import unflat, flat, mmul, mulv, vmul, ssum, one, zero, int_mirror, Structure
+from props.c02 import unflat, flat, mmul, mulv, vmul, ssum, Structure
 import itertools, functools
 LEVEL = 'proof'
 CLAIM = ("inverse (2x2, 3x3, 4x4), determinant, inverseTranspose, affineInverse (mat3/mat4), operator/ (mat/mat, mat/vec, vec/mat, /=), gtx adjugate, diagonal builders and "
-         "qr_decompose/rq_decompose are executed symbolically from their clang IR over fully symbolic float/double matrices in rounding-erased (real) semantics; the solver shows "
-         "inverse(M)*M = M*inverse(M) = I for every M with det(M) != 0, determinant = Leibniz expansion (hence transpose-invariant) and multiplicative, inverseTranspose = transpose(inverse), "
-         "affineInverse = inverse on affine matrices, X = A/B solves X*B = A (and m/v, v/m solve the linear systems), adjugate(M)*M = det(M)*I, and Q*R = M, Q^T Q = I, R upper triangular. "
-         "For integer matrices with |entries| <= 8 and det = +-1 the bit-precise IEEE term of inverse(M)*M, M*inverse(M) is shown to equal I exactly; gtx isIdentity/isNull are checked bit-precisely.")
+         "qr_decompose/rq_decompose are executed symbolically from their clang IR over fully symbolic float and double matrices in rounding-erased (real) semantics; every query is made "
+         "division-free (outputs read as fractions over the code's own divisors, goals cross-multiplied, each divisor proved non-zero under the precondition). The solver shows "
+         "inverse(M)*M = M*inverse(M) = I for every M with det(M) != 0 (no lower bound on |det|), determinant = Leibniz expansion, transpose-invariant and multiplicative, "
+         "transpose(inverseTranspose(M)) is a two-sided inverse of M and inverseTranspose = transpose(inverse) entry by entry, affineInverse = inverse (and a two-sided inverse) on affine matrices, "
+         "X = A/B solves X*B = A, x = B/v solves B*x = v, y = v/B solves y*B = v (operand order), adjugate(M)*M = M*adjugate(M) = det(M)*I, and Q*R = M, Q^T Q = I, R upper triangular for qr/rq. "
+         "Exact clause: for integer matrices with |entries| <= 8 and det = +-1 the bit-precise IEEE term of every one of these functions is shown to consist of exactly rounded operations only "
+         "(structure walk, divisor = determinant, solver-proved interval induction: all intermediates are integers below 2^24), so the IEEE results equal the mathematical values and the identities hold with ==; "
+         "for 2x2 float this is cross-checked by the solver directly on the bit-precise term. gtx isIdentity is checked bit-precisely, isNull in real semantics.")
 BOUNDS = ('rounding-erased semantics: every matrix entry an unconstrained real, hypothesis det(M) != 0 (Leibniz expansion) where an inverse is taken; affine: last row (0,..,0,1); '
-          'qr/rq: 2x2 and 3x2/2x3 shapes with linearly independent columns (3x3 attempted, optional); exact clause: integer entries |m| <= 8 with det = +-1, float and double, sizes 2,3,4; '
-          'isIdentity/isNull: all non-NaN floats (bit-precise)')
+          'qr/rq: shapes 2x2, 3x2, 2x3 with linearly independent leading columns / trailing rows (Gram determinant != 0); 3x3 (float; quick and thorough) and 4x4 (thorough) attempted, optional; '
+          'exact clause: integer entries |m| <= 8 with det = +-1 (determinant of a product: |m| <= 8 / 4 / 2 for sizes 2 / 3 / 4, the interval bound must stay below 2^24), float and double, sizes 2,3,4; '
+          'isIdentity: all non-NaN floats (bit-precise); isNull: all reals')
 OUTSIDE = ('the condition-number-proportional rounding bound for general well-conditioned matrices (a numerical-analysis claim; only the rounding-erased identities and the exact unimodular clause are decided); '
-           'qr/rq for 3x3 and larger if the nonlinear solver does not finish (optional obligations); isNormalized/isOrthogonal; SIMD (aligned) inverse variants (C03)')
+           'qr/rq for 3x3 and 4x4: the last Gram-Schmidt pivot != 0 does not finish in nlsat, so the goals that divide by it (last column of Q) are not attempted; the remaining 3x3/4x4 goals are optional; '
+           'sign of zero in the exact clause (== does not distinguish +0 and -0); isNormalized/isOrthogonal; SIMD (aligned) inverse variants (C03)')
 ASSUMPTIONS = ['rounding-erased (exact real) semantics for obligations named *.real; sqrt(x) is the unique y >= 0 with y*y = x',
-               'exact clause: IEEE-754 correct rounding returns an exactly representable result exactly (instances proved in C02 ieee_lemma_*; 1/d for d = +-1 is exact by the same rule)']
+               'exact clause: IEEE-754 correct rounding returns an exactly representable result exactly (instances proved in C02 ieee_lemma_*; x / (+-1) and 1 / (+-1) are exact by the same rule); '
+               'sums, differences and products of integers are integers (the induction over the term is carried out outside the solver, each step lemma inside)']
 TYPES = {'f32': 'float', 'f64': 'double'}
 INCLUDES = ['glm/glm.hpp', 'glm/gtc/matrix_inverse.hpp', 'glm/gtx/matrix_operation.hpp', 'glm/gtx/matrix_query.hpp', 'glm/gtx/matrix_factorisation.hpp']
 def Mx(C, R, p): return 'ldm<%d,%d,T>(%s)' % (C, R, p)
@@ -32,12 +39,13 @@ def build_unit(t):
         U.add('invT_%d' % L, [(ct, N)], [(ct, N), (ct, N)], 'auto A = %s; stm(o, glm::inverseTranspose(A)); stm(o2, glm::inverse(A));' % Mx(L, L, 'a'))
         if L > 2:
             U.add('aff_%d' % L, [(ct, N)], [(ct, N), (ct, N)], 'auto A = %s; stm(o, glm::affineInverse(A)); stm(o2, glm::inverse(A));' % Mx(L, L, 'a'))
-        U.add('div_%d' % L, [(ct, N), (ct, N), (ct, L)], [(ct, N), (ct, L), (ct, L), (ct, N)],
-              'auto A = %s; auto B = %s; auto v = %s; stm(o, A / B); stv(o2, B / v); stv(o3, v / B); { auto m = A; m /= B; stm(o4, m); }' % (Mx(L, L, 'a'), Mx(L, L, 'b'), Vx(L, 'c')))
+        U.add('div_%d' % L, [(ct, N), (ct, N), (ct, L)], [(ct, N), (ct, L), (ct, L), (ct, 2 * N)],
+              'auto A = %s; auto B = %s; auto v = %s; stm(o, A / B); stv(o2, B / v); stv(o3, v / B); { auto m = A; m /= B; stm(o4, m); } stm(o4 + %d, glm::inverse(B));' % (Mx(L, L, 'a'), Mx(L, L, 'b'), Vx(L, 'c'), N))
         U.add('adj_%d' % L, [(ct, N)], [(ct, N)], 'stm(o, glm::adjugate(%s));' % Mx(L, L, 'a'))
         U.add('diag_%d' % L, [(ct, L)], [(ct, N), (ct, 1)], 'auto D = glm::diagonal%dx%d(%s); stm(o, glm::inverse(D)); o2[0] = glm::determinant(D);' % (L, L, Vx(L, 'a')))
         U.add('unimod_%d' % L, [(ct, N)], [(ct, N), (ct, N), (ct, N)], 'auto A = %s; auto I = glm::inverse(A); stm(o, I * A); stm(o2, A * I); stm(o3, I);' % Mx(L, L, 'a'))
-        U.add('query_%d' % L, [(ct, N), (ct, 1)], [('bool', 2)], 'auto A = %s; o[0] = glm::isIdentity(A, b[0]); o[1] = glm::isNull(A, b[0]);' % Mx(L, L, 'a'))
+        U.add('query_%d' % L, [(ct, N), (ct, 1)], [('bool', 1)], 'auto A = %s; o[0] = glm::isIdentity(A, b[0]);' % Mx(L, L, 'a'))
+        U.add('null_%d' % L, [(ct, N), (ct, 1)], [('bool', 1)], 'auto A = %s; o[0] = glm::isNull(A, b[0]);' % Mx(L, L, 'a'))
     for (C, R) in QR_SHAPES:
         m = min(C, R)
         U.add('qr_%d%d' % (C, R), [(ct, C * R)], [(ct, m * R), (ct, C * m)],
@@ -78,10 +86,11 @@ def transpose(A): return [[A[c][r] for c in range(len(A))] for r in range(len(A[
 
 
 # ------------------------------------------------------------------ division-free goals
-# nlsat is fast on polynomial identities but does not finish when every entry of the code's output carries its own quotient (inverseTranspose: cof / det).
-# The code's divisors are proved non-zero under the precondition (the executor's 'domain' obligations, name *.domain).  Every output term is then read as a
-# fraction N / D (D a product of the code's own divisors) by the field rules a/b + c/d = (ad + cb)/(bd), (a/b)(c/d) = ac/(bd), (a/b)/(c/d) = ad/(bc), and an
-# equality goal N1/D1 == N2/D2 is handed to the solver cross-multiplied, N1*D2 == N2*D1 (equivalent because D1, D2 != 0).
+# nlsat is fast on polynomial identities but does not finish when every entry of the code's output carries its own quotient (inverseTranspose: cof / det; qr: 1/sqrt).
+# Every term of the code is therefore read as a fraction N / D (D a product of powers of the code's own divisors) by the field rules a/b + c/d = (ad + cb)/(bd),
+# (a/b)(c/d) = ac/(bd), (a/b)/(c/d) = ad/(bc); an equality goal N1/D1 == N2/D2 is handed to the solver cross-multiplied, N1*D2 == N2*D1, and the sqrt axioms and the
+# executor's side conditions are rewritten the same way (nodiv).  This is an equivalence wherever the divisors are non-zero: each divisor is proved non-zero for every
+# input satisfying the precondition by an obligation of its own (check_real), and a goal is only attempted when all its divisors are proved.
 class Frac:
     """numerator term, denominator as {divisor id: (divisor term, power)}"""
     def __init__(s, n, d=None): s.n = n; s.d = d or {}
@@ -108,15 +117,23 @@ class Frac:
         r = dict(a)
         for k, (term, p) in b.items(): r[k] = (term, max(p, r.get(k, (term, 0))[1]))
         return r
+    def is0(s): return z3.is_rational_value(s.n) and s.n.numerator_as_long() == 0
     def __add__(s, o):
-        o = Frac.of(o); l = Frac._lcm(s.d, o.d); return Frac(Frac._scale(s.n, s.d, l) + Frac._scale(o.n, o.d, l), l)
+        o = Frac.of(o)
+        if o.is0(): return s             # a literal zero contributes no divisor (R's zero entries in Q*R)
+        if s.is0(): return o
+        l = Frac._lcm(s.d, o.d); return Frac(Frac._scale(s.n, s.d, l) + Frac._scale(o.n, o.d, l), l)
     __radd__ = lambda s, o: Frac.of(o) + s
     def __sub__(s, o):
-        o = Frac.of(o); l = Frac._lcm(s.d, o.d); return Frac(Frac._scale(s.n, s.d, l) - Frac._scale(o.n, o.d, l), l)
+        o = Frac.of(o)
+        if o.is0(): return s
+        l = Frac._lcm(s.d, o.d); return Frac(Frac._scale(s.n, s.d, l) - Frac._scale(o.n, o.d, l), l)
     __rsub__ = lambda s, o: Frac.of(o) - s
     def __neg__(s): return Frac(-s.n, s.d)
     def __mul__(s, o):
-        o = Frac.of(o); d = dict(s.d)
+        o = Frac.of(o)
+        if s.is0() or o.is0(): return Frac(z3.RealVal(0))
+        d = dict(s.d)
         for k, (term, p) in o.d.items(): d[k] = (term, p + d.get(k, (term, 0))[1])
         return Frac(s.n * o.n, d)
     __rmul__ = lambda s, o: Frac.of(o) * s
@@ -175,6 +192,24 @@ def nodiv(b, used=None):
         if kd == z3.Z3_OP_XOR: return z3.Xor(nc[0], nc[1])
         return nc[0] == nc[1]
     return b
+def _sum_of_squares(cond):
+    """cond = (x1*x1 + ... + xn*xn < 0) (as emitted by the executor for sqrt; also Not(0 <= ..)) -> [x1..xn], else None"""
+    is0 = lambda x: z3.is_rational_value(x) and x.numerator_as_long() == 0
+    kd = cond.decl().kind()
+    if kd == z3.Z3_OP_LT and is0(cond.arg(1)): arg = cond.arg(0)                # arg < 0
+    elif kd == z3.Z3_OP_GT and is0(cond.arg(0)): arg = cond.arg(1)              # 0 > arg
+    elif kd == z3.Z3_OP_NOT and cond.arg(0).decl().kind() == z3.Z3_OP_LE and is0(cond.arg(0).arg(0)): arg = cond.arg(0).arg(1)
+    elif kd == z3.Z3_OP_NOT and cond.arg(0).decl().kind() == z3.Z3_OP_GE and is0(cond.arg(0).arg(1)): arg = cond.arg(0).arg(0)
+    else: return None
+    terms = []; st = [arg]; xs = []
+    while st:
+        x = st.pop()
+        if x.decl().kind() == z3.Z3_OP_ADD: st.extend(x.children())
+        else: terms.append(x)
+    for m in terms:
+        if m.decl().kind() == z3.Z3_OP_MUL and m.num_args() == 2 and m.arg(0).eq(m.arg(1)): xs.append(m.arg(0))
+        else: return None
+    return xs
 def _subterm_ids(t, acc):
     st = [t]
     while st:
@@ -224,8 +259,17 @@ def check_real(S, U, fn, spec, pre, name, bounds, mutant=None, known=(), timeout
         if r == 'unsat': proven.add(k); facts.append(d != 0)
     H = hyps()
     # (2) executor obligations
-    groups = {}
-    for kind, cond, d in obs: groups.setdefault((kind, d), []).append(cond)
+    groups = {}; nsq = 0
+    for (kind, cond, d), (_k, raw, _d) in zip(obs, res.obligations):
+        if 'division by zero' in d and raw.decl().kind() == z3.Z3_OP_EQ and any(c.get_id() in _DV for c in raw.children()): continue      # 'divisor == 0' unconditionally: that is obligation (1)
+        sq = _sum_of_squares(raw) if 'sqrt of negative' in d else None
+        if sq is not None:
+            # sqrt argument of the syntactic form x1*x1 + .. + xn*xn: non-negative whatever the xi are (the xi are replaced by fresh variables: a generalisation)
+            ys = [z3.Real('y%d' % k) for k in range(len(sq))]
+            S.prove('%s.domain.sqrt-argument[%d]' % (name, nsq), ssum([y * y for y in ys]) >= 0, [], timeout=timeout, kind=kind, functions=fnlist, mandatory=mandatory,
+                    bounds=binfo + '; argument is the sum of squares of %d terms of the code, abstracted to free variables' % len(sq)); nsq += 1
+            continue
+        groups.setdefault((kind, d), []).append(cond)
     for (kind, d), conds in groups.items():
         g = z3.Not(z3.Or(*conds)) if len(conds) > 1 else z3.Not(conds[0])
         if z3.is_true(z3.simplify(g)): continue
@@ -282,12 +326,16 @@ def div_spec(L):
     """X = A / B is A * inverse(B): the unique X with X * B == A; x = B / v is inverse(B) * v: B * x == v; y = v / B is v * inverse(B): y * B == v (operand order matters)"""
     def spec(i, o):
         A = unflat(fr(i[0]), L, L); B = unflat(fr(i[1]), L, L); v = fr(i[2])
-        X = unflat(rv(o[0]), L, L); x = rv(o[1]); y = rv(o[2]); X2 = unflat(rv(o[3]), L, L)
-        XB = mmul(X, B); X2B = mmul(X2, B); Bx = mulv(B, x); yB = vmul(y, B)
+        X = unflat(rv(o[0]), L, L); x = rv(o[1]); y = rv(o[2]); X2 = unflat(rv(o[3][:L * L]), L, L); IB = unflat(rv(o[3][L * L:]), L, L)
+        XB = mmul(X, B); X2B = mmul(X2, B); Bx = mulv(B, x); yB = vmul(y, B); AIB = mmul(A, IB); IBv = mulv(IB, v); vIB = vmul(v, IB)
         g = [('(A/B)*B==A[%d][%d]' % (c, r), FEq(XB[c][r], A[c][r])) for c in range(L) for r in range(L)]
         g += [('B*(B/v)==v[%d]' % r, FEq(Bx[r], v[r])) for r in range(L)]
         g += [('(v/B)*B==v[%d]' % k, FEq(yB[k], v[k])) for k in range(L)]
         g += [('(A/=B)*B==A[%d][%d]' % (c, r), FEq(X2B[c][r], A[c][r])) for c in range(L) for r in range(L)]
+        # the literal reading, with the code's own inverse(B)
+        g += [('A/B==A*inverse(B)[%d][%d]' % (c, r), FEq(X[c][r], AIB[c][r])) for c in range(L) for r in range(L)]
+        g += [('B/v==inverse(B)*v[%d]' % r, FEq(x[r], IBv[r])) for r in range(L)]
+        g += [('v/B==v*inverse(B)[%d]' % k, FEq(y[k], vIB[k])) for k in range(L)]
         return g
     return spec
 def adj_spec(L):
@@ -307,11 +355,11 @@ def job_inverse(t, L):
         scaled_instances(S, U, t, 'inv_%d' % L, inverse_spec(L), L, 'c10_%s.inverse%d' % (t, L))
     return run
 
-# Instances M = s * U0 for a fixed small-integer unimodular U0 and one symbolic scale 1/4096 <= |s| <= 4096 (det = +-s^L down to 2^-48): redundant with the general obligation
+# Instances M = s * U0 for a fixed small-integer unimodular U0 and one symbolic scale 1/4096 <= |s| <= 4096 (|det| = |s|^L down to 2^-48): redundant with the general obligation
 # above, but a counterexample here is a well-scaled matrix whose native replay is robust (a general real counterexample may need entries that overflow or cancel in floats).
-UNIMOD0 = {2: [[1, 2], [1, 3]], 3: [[1, 2, 0], [0, 1, 3], [1, 2, 1]], 4: [[1, 2, 0, 1], [0, 1, 3, 0], [1, 2, 1, 2], [0, 1, 3, 1]]}       # columns; det = 1 each (checked by the witness)
+UNIMOD0 = {2: [[1, 2], [1, 3]], 3: [[1, 2, 0], [0, 1, 3], [1, 2, 1]], 4: [[1, 2, 0, 1], [0, 1, 3, 0], [1, 2, 1, 2], [0, 1, 3, 1]]}       # columns; det = 1 each
 def scaled_ins(L, affine=False):
-    s = z3.Real('a0'); M = UNIMOD0[L]
+    s = z3.Real('s'); M = UNIMOD0[L]
     if affine:       # upper-left block s * U0(L-1), translation s*(1,2,..), last row (0,..,0,1)
         B = UNIMOD0[L - 1]
         return [[(s * B[c][r] if c < L - 1 else s * (r + 1)) if r < L - 1 else z3.RealVal(1 if c == L - 1 else 0) for c in range(L) for r in range(L)]], s
@@ -628,6 +676,32 @@ def job_exact(t, L, what):
             exact_check(S, U, 'adj_%d' % L, t, adj_spec(L), None, pfx, unimod=False)
     return run
 
+def job_bitprecise(t, L, oi, idxs, mandatory=False):
+    """the exact clause put to the solver directly on the bit-precise IEEE term (no structural argument): entries = signed 5-bit integers in [-8, 8] converted to
+    float, det = +-1 computed over bit-vectors; (inverse(M)*M)[c][r] (oi = 0) / (M*inverse(M))[c][r] (oi = 1) is fp.eq to delta.  Expensive (fp.div is bit-blasted)."""
+    U = UNITS[t]; W = 32 if t == 'f32' else 64
+    def run(S):
+        fn = 'unimod_%d' % L; res = sym_call(U, fn, mode='fp'); f = U.fns[fn]
+        ks = [z3.BitVec('k%d' % i, 5) for i in range(L * L)]
+        sub = [(a, z3.fpToIEEEBV(z3.fpSignedToFP(RNE, k, FSORT[W]))) for a, k in zip(res.ins[0], ks)]
+        det = leibniz(unflat([z3.SignExt(16, k) for k in ks], L, L))
+        hy = [z3.And(k >= -8, k <= 8) for k in ks] + [z3.Or(det == 1, det == -1)] + res.axioms
+        fnlist = ['w_%s -> %s' % (fn, f.body.strip().replace('\n', ' ')[:160])]
+        for idx in idxs:
+            c, r = idx // L, idx % L
+            def replay(m, idx=idx, c=c, r=r):
+                kv = [m.eval(k, model_completion=True).as_signed_long() for k in ks]; vals = [[float_to_bits(float(v), W) for v in kv]]
+                info = {'unit': U.name, 'fn': fn, 'inputs': [[hex(b) for b in row] for row in vals], 'expected': 1.0 if c == r else 0.0}
+                bad = False
+                for cxx in ('g++', 'clang++-14'):
+                    got = bits_to_float(U.call_native(fn, vals, cxx=cxx)[oi][idx], W); info['native_' + cxx] = got
+                    if got != (1.0 if c == r else 0.0): bad = True
+                return ('reproduced' if bad else 'not-reproduced'), info
+            goal = z3.fpEQ(z3.substitute(res.outs[oi][idx].fp, *sub), z3.FPVal(1.0 if c == r else 0.0, FSORT[W]))
+            S.prove('c10_%s.inverse%d.exact.bit-precise.%s[%d][%d]' % (t, L, 'inverse(M)*M==I' if oi == 0 else 'M*inverse(M)==I', c, r), goal, hy, timeout=S.cap(150, 600), kind='spec', functions=fnlist,
+                    bounds='all integer matrices with entries in [-8, 8] and det = +-1; bit-precise %s; ll=%s' % (TYPES[t], U.ll_sha()), mandatory=mandatory, replay=replay, vars_=ks)
+    return run
+
 def job_query(t, L):
     U = UNITS[t]; W = 32 if t == 'f32' else 64
     def run(S):
@@ -645,8 +719,8 @@ def job_query(t, L):
             # 'null matrix' in the sense of the vector overload it is built from: every column has Euclidean length <= epsilon
             A = unflat(i[0], L, L); e = i[1][0]
             cs = [z3.And(e >= 0, ssum([x * x for x in A[c]]) <= e * e) for c in range(L)]
-            return [('isNull=>column%d' % c, z3.Implies(o[0][1] == 1, cs[c])) for c in range(L)] + [('columns=>isNull', z3.Implies(z3.And(*cs), o[0][1] == 1))]
-        S.check_fn(U, 'query_%d' % L, spec_null, None, mode='real', name='c10_%s.isNull%d.real' % (t, L), timeout=S.cap(60, 180), bounds='all real entries and epsilon; sqrt as algebraic y>=0, y*y=x', unwind=8)
+            return [('isNull=>column%d' % c, z3.Implies(o[0][0] == 1, cs[c])) for c in range(L)] + [('columns=>isNull', z3.Implies(z3.And(*cs), o[0][0] == 1))]
+        S.check_fn(U, 'null_%d' % L, spec_null, None, mode='real', name='c10_%s.isNull%d.real' % (t, L), timeout=S.cap(60, 180), bounds='all real entries and epsilon; sqrt as algebraic y>=0, y*y=x', unwind=8, solver='nra')
     return run
 
 QR_QUICK = {('qr', 2, 2), ('qr', 3, 2), ('qr', 2, 3), ('rq', 2, 2), ('rq', 2, 3), ('rq', 3, 2)}
@@ -661,11 +735,16 @@ def jobs(tier):
             for what in EXACT:
                 if what == 'affineInverse' and L == 2: continue
                 J.append(('exact_%s_%s_%d' % (what, t, L), job_exact(t, L, what)))
+        if t == 'f32' or not q:       # optional cross-check of the exact clause without the structural argument
+            for oi in (0, 1):
+                for idx in range(4): J.append(('bitprecise_%s_2_%s_%d' % (t, 'IM' if oi == 0 else 'MI', idx), job_bitprecise(t, 2, oi, [idx])))
         for (C, R) in QR_SHAPES:
             for which in ('qr', 'rq'):
                 if (which, C, R) in QR_QUICK: J.append(('%s_%s_%d%d' % (which, t, C, R), job_qr(t, C, R, which, True)))
+                elif q and t == 'f32' and (C, R) == (3, 3): J.append(('%s_%s_%d%d' % (which, t, C, R), job_qr(t, C, R, which, False)))       # optional: first two columns finish
                 elif not q and t == 'f32':
                     n = 3 if C == 3 else 6
                     for k in range(n): J.append(('%s_%s_%d%d_part%d' % (which, t, C, R, k), job_qr(t, C, R, which, False, (k, n))))
+    J.sort(key=lambda j: 0 if j[0].startswith('bitprecise') else 1)      # the long optional jobs start first
     return J
 JOB_CAP = {'quick': 600, 'thorough': 2400}
